@@ -167,6 +167,18 @@ Example C15_example_monitors :
   consumer_accepts 10 (mkCrec false 5 5 40 41 false [5; 6]) = false.             (* DespawnOutput did not return *)
 Proof. vm_compute. repeat split; reflexivity. Qed.
 
+(* ---- attaching: a new consumer is inserted behind everything any consumer has already received.  From a reachable state in which
+   consumer o has read the stream up to position q = |c_pre o| + |c_read o|, after ANY steps of anybody, a consumer inserted then starts at a
+   position >= q with nothing read and nothing queued.  (The run-time check uses this: the first item of a consumer must lie behind the
+   highest item somebody had already received when its SpawnOutput was called.) *)
+From HIDI Require Import Proofs.FanoutAttach.
+Theorem C15_attach_behind_received : forall (T : Type) (fixed : bool) (icap : nat) (s s1 s2 : @state T) o ls i n,
+  reachable (step fixed icap) init s -> In o (outs s) ->
+  exec (step fixed icap) s ls s1 -> step fixed icap s1 (SpawnInsert i) = Some s2 -> get_out i (outs s2) = Some n ->
+  (length (c_pre o) + length (c_read o) <= length (c_pre n))%nat /\ c_read n = [] /\ c_q n = [].
+Proof. intros T. exact insert_behind_received. Qed.
+Print Assumptions C15_attach_behind_received.
+
 (* ---- end to end: device models composed with the relay (Model/EndToEnd.v).  Any number of devices, each executing its
    own history with the device model of C01-C08/C13/C14 and handing its messages over one at a time with blocking sends;
    the relay goroutine and the port interleave arbitrarily; channel capacities are arbitrary.  In every reachable state,
